@@ -53,6 +53,8 @@ type Ceremony struct {
 	W     *world.World
 	Round string
 	N, T  int
+	// ReinitHashes: per node, the confirmation hash shown to the operator (reinitialised worlds).
+	ReinitHashes map[string][]byte
 }
 
 func now() time.Time { return time.Now().UTC() }
@@ -334,6 +336,7 @@ func ReinitFrom(old *Ceremony, commSeed uint64, adapt func(*types.ReDKG) (*types
 		return nil, nil, err
 	}
 	ce := &Ceremony{W: w, N: old.N, T: old.T, Round: old.Round}
+	ce.ReinitHashes = captureReinitHashesHook(w)
 	keys := map[string][]byte{}
 	for _, n := range w.Nodes {
 		keys[n.Name] = n.KeyPair.Pub
@@ -365,3 +368,5 @@ func ReinitFrom(old *Ceremony, commSeed uint64, adapt func(*types.ReDKG) (*types
 	}
 	return ce, re, nil
 }
+
+var captureReinitHashesHook = func(w *world.World) map[string][]byte { return captureReinitHashes(w) }
